@@ -793,6 +793,10 @@ def object_construct(expression: exp.Expression) -> exp.Expression:
 
             non_null_expressions.append(e)
 
+        if not non_null_expressions:
+            # duckdb has no empty struct literal
+            return exp.Cast(this=exp.Literal(this="{}", is_string=True), to=exp.DataType(this=exp.DataType.Type.JSON))
+
         new_struct = expression.copy()
         new_struct.set("expressions", non_null_expressions)
         return exp.Anonymous(this="TO_JSON", expressions=[new_struct])
